@@ -333,6 +333,8 @@ struct Stats {
 	shapes: Vec<&'static str>,
 	tuple_arities: Vec<usize>,
 	batch_entries_checked: u64,
+	/// builders obtained from `Default::default()` / left behind by `std::mem::take` instead of `new()`
+	builders_from_default: u64,
 }
 
 // ---------------------------------------------------------------------------------------------------------------
@@ -610,7 +612,20 @@ fn feed<S: Sink>(case: &Case, sink: S, st: &mut Stats) -> Fed<S::Out> {
 		Case::Array { inserts, clone_at } => {
 			let shape = "array";
 			let mut exp = Expect { builder: true, ..Default::default() };
-			let mut b = ArrayParams::new();
+			// an empty builder is an empty builder, however it was obtained
+			let mut b = match (inserts.len() + clone_at.unwrap_or(1)) % 3 {
+				0 => ArrayParams::new(),
+				1 => {
+					st.builders_from_default += 1;
+					ArrayParams::default()
+				}
+				_ => {
+					st.builders_from_default += 1;
+					let mut x = ArrayParams::new();
+					let _moved_out = std::mem::take(&mut x);
+					x
+				}
+			};
 			let mut snap = None;
 			for (i, s) in inserts.iter().enumerate() {
 				if *clone_at == Some(i) {
@@ -630,7 +645,19 @@ fn feed<S: Sink>(case: &Case, sink: S, st: &mut Stats) -> Fed<S::Out> {
 		Case::Object { inserts, clone_at } => {
 			let shape = "object";
 			let mut exp = Expect { builder: true, object: true, ..Default::default() };
-			let mut b = ObjectParams::new();
+			let mut b = match (inserts.len() + clone_at.unwrap_or(1)) % 3 {
+				0 => ObjectParams::new(),
+				1 => {
+					st.builders_from_default += 1;
+					ObjectParams::default()
+				}
+				_ => {
+					st.builders_from_default += 1;
+					let mut x = ObjectParams::new();
+					let _moved_out = std::mem::take(&mut x);
+					x
+				}
+			};
 			let mut snap = None;
 			for (i, (k, s)) in inserts.iter().enumerate() {
 				if *clone_at == Some(i) {
@@ -1612,6 +1639,7 @@ fn record(case: &Case, ev: &mut Evidence, agg: &mut Agg) {
 	ev.eval();
 	let st = &rep.st;
 	ev.count("inserts_ok", st.inserts_ok);
+	ev.count("builders_obtained_from_default", st.builders_from_default);
 	ev.count("inserts_failed", st.inserts_failed);
 	ev.count("to_rpc_params_results_judged", st.builds);
 	ev.count("results_judged_after_a_failed_insert", st.builds_after_failed);
